@@ -33,19 +33,29 @@ open GV GV.Conc GV.Gen
 /-- everything a node thread can run: the node-level entry points and the chain-level ops called directly -/
 def fullNodeTable : List (String × List NodeEv) := nodeTable ++ chainTableN
 
+/-- a Bool predicate decided on each generated chunk holds on the whole table (the kernel's evaluation
+depth grows with the list, so the decisions are made per chunk) -/
+theorem all_of_chunks (p : String × List NodeEv → Bool)
+    (h1 : nodeTable1.all p = true) (h2 : nodeTable2.all p = true) (h3 : nodeTable3.all p = true)
+    (h4 : nodeTable4.all p = true) (h5 : chainTableN.all p = true) : ∀ e ∈ fullNodeTable, p e = true := by
+  intro e he
+  simp only [fullNodeTable, nodeTable, List.mem_append] at he
+  simp only [List.all_eq_true] at h1 h2 h3 h4 h5
+  rcases he with (((h | h) | h) | h) | h
+  · exact h1 e h
+  · exact h2 e h
+  · exact h3 e h
+  · exact h4 e h
+  · exact h5 e h
+
 /-! ## obligations on the regenerated node table -/
 
 /-- every entry releases only what it holds and ends holding nothing -/
-theorem node_table_bracketed : ∀ e ∈ fullNodeTable, bracketedFrom [] e.2 = true := by
-  -- decided per generated table (the kernel's evaluation depth grows with the list)
-  have h1 : nodeTable.all (fun e => bracketedFrom [] e.2) = true := by decide +kernel
-  have h2 : chainTableN.all (fun e => bracketedFrom [] e.2) = true := by decide +kernel
-  intro e he
-  rcases List.mem_append.mp he with h | h
-  · exact List.all_eq_true.mp h1 e h
-  · exact List.all_eq_true.mp h2 e h
+theorem node_table_bracketed : ∀ e ∈ fullNodeTable, bracketedFrom [] e.2 = true :=
+  all_of_chunks (fun e => bracketedFrom [] e.2) (by decide +kernel) (by decide +kernel) (by decide +kernel)
+    (by decide +kernel) (by decide +kernel)
 
-/-- **The order graph of the node, exactly** - 22 edges: the chain-level order (`deseg < hp < ts < batch < deny`,
+/-- **The order graph of the node, exactly** - 41 edges (22 up to increment 2): the chain-level order (`deseg < hp < ts < batch < deny`,
 `orph < hidx`), the pool lock OUTSIDE everything it nests with (`pool → hp, ts, batch, deny, reorg, dand, secp`:
 the adapters call `validate_tx` & co. holding `tx_pool`; increment 2: `pool → p2pPeers`, the broadcast of an
 accepted transaction under the pool write lock takes p2p's `Peers.peers`), and `SyncState.current` INSIDE the
@@ -57,27 +67,49 @@ def nodeGraph : List (NLock × NLock) :=
    (.chain .orph, .chain .hidx),
    (.chain .deseg, .syncCur), (.chain .hp, .syncCur), (.chain .ts, .syncCur), (.chain .batch, .syncCur),
    (.pool, .chain .hp), (.pool, .chain .ts), (.pool, .chain .batch), (.pool, .chain .deny),
-   (.pool, .reorg), (.pool, .dand), (.pool, .secp), (.pool, .p2pPeers)]
+   (.pool, .reorg), (.pool, .dand), (.pool, .secp), (.pool, .p2pPeers),
+   -- increment 3: the Mutexes of one Peer (send under the pool / Dandelion lock, stop under Peers.peers)
+   (.pool, .peerSend), (.pool, .peerStop), (.dand, .peerSend), (.p2pPeers, .peerStop),
+   -- increment 3: the stratum server holds `current_state` ACROSS Chain::process_block (handle_submit) and
+   -- across mine_block::get_block (run): it is outside the pool lock and every chain lock
+   (.stratumState, .pool), (.stratumState, .chain .hp), (.stratumState, .chain .ts), (.stratumState, .chain .batch),
+   (.stratumState, .chain .deny), (.stratumState, .chain .orph), (.stratumState, .chain .hidx),
+   (.stratumState, .reorg), (.stratumState, .secp), (.stratumState, .p2pPeers), (.stratumState, .peerSend),
+   (.stratumState, .peerStop), (.stratumState, .stratumStats), (.stratumState, .stratumWorkers),
+   (.stratumStats, .stratumWorkers)]
 
-/-- every edge any entry contributes (over all its acquisitions) is one of the 22 -/
+/-- every edge any entry contributes (over all its acquisitions) is an edge of `nodeGraph` -/
 theorem node_edges_in_graph : ∀ t ∈ fullNodeTable, ∀ e ∈ edgesFrom [] t.2, e ∈ nodeGraph := by
-  have h1 : nodeTable.all (fun t => (edgesFrom [] t.2).all (fun e => nodeGraph.contains e)) = true := by decide +kernel
-  have h2 : chainTableN.all (fun t => (edgesFrom [] t.2).all (fun e => nodeGraph.contains e)) = true := by decide +kernel
-  simp only [List.all_eq_true, List.contains_iff_mem] at h1 h2
-  intro t ht
-  rcases List.mem_append.mp ht with h | h
-  · exact h1 t h
-  · exact h2 t h
+  have h := all_of_chunks (fun t => (edgesFrom [] t.2).all (fun e => nodeGraph.contains e))
+    (by decide +kernel) (by decide +kernel) (by decide +kernel) (by decide +kernel) (by decide +kernel)
+  intro t ht e he
+  have := h t ht
+  simp only [List.all_eq_true, List.contains_iff_mem] at this
+  exact this e he
 
-/-- … and each of the 22 is contributed by some entry -/
+/-- … and each edge of `nodeGraph` is contributed by some entry -/
 theorem node_graph_edges_occur : ∀ e ∈ nodeGraph, ∃ t ∈ fullNodeTable, e ∈ edgesFrom [] t.2 := by
-  have h : nodeGraph.all (fun e => nodeTable.any (fun t => (edgesFrom [] t.2).contains e) ||
-      chainTableN.any (fun t => (edgesFrom [] t.2).contains e)) = true := by decide +kernel
+  have h : nodeGraph.all (fun e => nodeTable1.any (fun t => (edgesFrom [] t.2).contains e) ||
+      nodeTable2.any (fun t => (edgesFrom [] t.2).contains e) || nodeTable3.any (fun t => (edgesFrom [] t.2).contains e) ||
+      nodeTable4.any (fun t => (edgesFrom [] t.2).contains e) || chainTableN.any (fun t => (edgesFrom [] t.2).contains e)) = true := by
+    decide +kernel
   simp only [List.all_eq_true, Bool.or_eq_true, List.any_eq_true, List.contains_iff_mem] at h
   intro e he
-  rcases h e he with ⟨t, ht, hm⟩ | ⟨t, ht, hm⟩
-  · exact ⟨t, List.mem_append.mpr (Or.inl ht), hm⟩
-  · exact ⟨t, List.mem_append.mpr (Or.inr ht), hm⟩
+  have hm : ∀ t, (t ∈ nodeTable1 ∨ t ∈ nodeTable2 ∨ t ∈ nodeTable3 ∨ t ∈ nodeTable4 ∨ t ∈ chainTableN) → t ∈ fullNodeTable := by
+    intro t ht
+    simp only [fullNodeTable, nodeTable, List.mem_append]
+    rcases ht with h | h | h | h | h
+    · exact Or.inl (Or.inl (Or.inl (Or.inl h)))
+    · exact Or.inl (Or.inl (Or.inl (Or.inr h)))
+    · exact Or.inl (Or.inl (Or.inr h))
+    · exact Or.inl (Or.inr h)
+    · exact Or.inr h
+  rcases h e he with (((⟨t, ht, hx⟩ | ⟨t, ht, hx⟩) | ⟨t, ht, hx⟩) | ⟨t, ht, hx⟩) | ⟨t, ht, hx⟩
+  · exact ⟨t, hm t (Or.inl ht), hx⟩
+  · exact ⟨t, hm t (Or.inr (Or.inl ht)), hx⟩
+  · exact ⟨t, hm t (Or.inr (Or.inr (Or.inl ht))), hx⟩
+  · exact ⟨t, hm t (Or.inr (Or.inr (Or.inr (Or.inl ht)))), hx⟩
+  · exact ⟨t, hm t (Or.inr (Or.inr (Or.inr (Or.inr ht)))), hx⟩
 
 /-- **The order graph regenerated from /repo is exactly `nodeGraph`.**  A change in /repo that adds a
 nesting (or removes one) breaks this theorem even when the graph stays acyclic. -/
@@ -102,19 +134,25 @@ theorem node_order_graph_acyclic :
     | cons hab _ ih => exact Path.cons ((node_order_graph_is _).1 hab) ih
   exact acyclicB_no_cycle nodeGraph hc a (mono a a hp)
 
-/-- The pool lock is outermost: no entry acquires it while holding anything — in particular
-`Chain::process_block` reaches `block_accepted` (which write-locks the pool) holding nothing, and no
-pool-facing adapter calls `process_block` under the pool lock.  The `SyncState` locks, `secp`, `reorg`,
-`dand` and p2p's locks are leaves: nothing is acquired under them. -/
+/-- The pool lock is outermost but for the stratum server: it is acquired holding nothing, or holding the
+stratum `current_state` only (handle_submit keeps it across `Chain::process_block`, whose callback locks the
+pool; run keeps it across `mine_block::get_block`) — in particular `Chain::process_block` reaches
+`block_accepted` holding no chain lock and no pool-facing adapter calls `process_block` under the pool
+lock.  Nothing is acquired under the `SyncState` locks, `secp`, `reorg`, p2p's `blocked` / per-peer data locks,
+the Mutexes of a `Peer`, the tracking caches, the stratum worker list: leaves. -/
 theorem pool_outermost_sync_leaves :
-    (∀ e ∈ orderGraph fullNodeTable, e.2 ≠ NLock.pool) ∧
+    (∀ e ∈ orderGraph fullNodeTable, e.2 = NLock.pool → e.1 = .stratumState) ∧
+    (∀ e ∈ orderGraph fullNodeTable, e.2 ≠ NLock.stratumState) ∧
     (∀ e ∈ orderGraph fullNodeTable,
-      e.1 ≠ .syncCur ∧ e.1 ≠ .syncErr ∧ e.1 ≠ .syncSegs ∧ e.1 ≠ .secp ∧ e.1 ≠ .reorg ∧ e.1 ≠ .dand ∧
-      e.1 ≠ .p2pPeers ∧ e.1 ≠ .p2pBlocked ∧ e.1 ≠ .p2pPeerData) := by
-  have h : ∀ e ∈ nodeGraph, e.2 ≠ NLock.pool ∧
-      (e.1 ≠ .syncCur ∧ e.1 ≠ .syncErr ∧ e.1 ≠ .syncSegs ∧ e.1 ≠ .secp ∧ e.1 ≠ .reorg ∧ e.1 ≠ .dand ∧
-       e.1 ≠ .p2pPeers ∧ e.1 ≠ .p2pBlocked ∧ e.1 ≠ .p2pPeerData) := by decide
-  exact ⟨fun e he => (h e ((node_order_graph_is e).1 he)).1, fun e he => (h e ((node_order_graph_is e).1 he)).2⟩
+      e.1 ≠ .syncCur ∧ e.1 ≠ .syncErr ∧ e.1 ≠ .syncSegs ∧ e.1 ≠ .secp ∧ e.1 ≠ .reorg ∧
+      e.1 ≠ .p2pBlocked ∧ e.1 ≠ .p2pPeerData ∧ e.1 ≠ .peerState ∧ e.1 ≠ .peerSend ∧ e.1 ≠ .peerStop ∧
+      e.1 ≠ .peerTrack ∧ e.1 ≠ .stratumWorkers) := by
+  have h : ∀ e ∈ nodeGraph, (e.2 = NLock.pool → e.1 = .stratumState) ∧ e.2 ≠ NLock.stratumState ∧
+      (e.1 ≠ .syncCur ∧ e.1 ≠ .syncErr ∧ e.1 ≠ .syncSegs ∧ e.1 ≠ .secp ∧ e.1 ≠ .reorg ∧
+       e.1 ≠ .p2pBlocked ∧ e.1 ≠ .p2pPeerData ∧ e.1 ≠ .peerState ∧ e.1 ≠ .peerSend ∧ e.1 ≠ .peerStop ∧
+       e.1 ≠ .peerTrack ∧ e.1 ≠ .stratumWorkers) := by decide
+  exact ⟨fun e he => (h e ((node_order_graph_is e).1 he)).1, fun e he => (h e ((node_order_graph_is e).1 he)).2.1,
+    fun e he => (h e ((node_order_graph_is e).1 he)).2.2⟩
 
 /-- The callback of the chain, resolved: inside a node `Chain::process_block` is the only chain-level
 entry that takes the pool lock (through `ChainToPoolAndNetAdapter::block_accepted`). -/
@@ -131,17 +169,15 @@ table (`!callback` marks are gone); what remains outside is a call on a single `
 `send_handle` Mutex and the connection's channel), which the translator does not mark. -/
 theorem p2p_locks_under_at_most_pool :
     (∀ e ∈ orderGraph fullNodeTable,
-      (e.2 = .p2pPeers ∨ e.2 = .p2pBlocked ∨ e.2 = .p2pPeerData) → e.1 = NLock.pool) ∧
+      (e.2 = .p2pPeers ∨ e.2 = .p2pBlocked ∨ e.2 = .p2pPeerData) → (e.1 = NLock.pool ∨ e.1 = .stratumState)) ∧
+    (∀ e ∈ orderGraph fullNodeTable, (e.2 = .peerSend ∨ e.2 = .peerStop) →
+      (e.1 = NLock.pool ∨ e.1 = .stratumState ∨ e.1 = .dand ∨ e.1 = .p2pPeers)) ∧
     (∀ e ∈ fullNodeTable, marksUnder .callback (fun _ => false) [] e.2 = true) := by
-  have h1 : ∀ e ∈ nodeGraph, (e.2 = .p2pPeers ∨ e.2 = .p2pBlocked ∨ e.2 = .p2pPeerData) → e.1 = NLock.pool := by decide
-  have h2 : nodeTable.all (fun e => marksUnder .callback (fun _ => false) [] e.2) = true := by decide +kernel
-  have h3 : chainTableN.all (fun e => marksUnder .callback (fun _ => false) [] e.2) = true := by decide +kernel
-  simp only [List.all_eq_true] at h2 h3
-  refine ⟨fun e he => h1 e ((node_order_graph_is e).1 he), ?_⟩
-  intro e he
-  rcases List.mem_append.mp he with h | h
-  · exact h2 e h
-  · exact h3 e h
+  have h1 : ∀ e ∈ nodeGraph, ((e.2 = .p2pPeers ∨ e.2 = .p2pBlocked ∨ e.2 = .p2pPeerData) → (e.1 = NLock.pool ∨ e.1 = .stratumState)) ∧
+      ((e.2 = .peerSend ∨ e.2 = .peerStop) → (e.1 = NLock.pool ∨ e.1 = .stratumState ∨ e.1 = .dand ∨ e.1 = .p2pPeers)) := by decide
+  exact ⟨fun e he => (h1 e ((node_order_graph_is e).1 he)).1, fun e he => (h1 e ((node_order_graph_is e).1 he)).2,
+    all_of_chunks (fun e => marksUnder .callback (fun _ => false) [] e.2) (by decide +kernel) (by decide +kernel)
+      (by decide +kernel) (by decide +kernel) (by decide +kernel)⟩
 
 /-- The sync runners and the p2p-facing entry points are in the table (increment 2), and the ones that
 move the chain do take its write locks. -/
@@ -149,7 +185,11 @@ theorem sync_and_p2p_entries_present :
     (∀ n ∈ ["SyncRunner::sync_loop", "HeaderSync::check_run", "BodySync::check_run", "StateSync::check_run",
             "StateSync::continue_pibd", "Peers::block_received", "Peers::transaction_received",
             "Peers::headers_received", "Peers::header_received", "Peers::broadcast_transaction",
-            "Peers::broadcast_header", "Peers::ban_peer", "Peers::check_all", "Peers::clean_peers"],
+            "Peers::broadcast_header", "Peers::ban_peer", "Peers::check_all", "Peers::clean_peers",
+            "Stratum::handle_submit", "Stratum::run", "Miner::run_loop", "api::PoolHandler::push_transaction",
+            "api::PoolPushHandler::post", "api::ChainCompactHandler::post", "api::OutputHandler::outputs_by_ids",
+            "api::TxHashSetHandler::get_merkle_proof_for_output", "TrackingAdapter::block_received", "Peer::send_header",
+            "Peer::stop"],
       (fullNodeTable.lookup n).isSome = true) ∧
     (∀ n ∈ ["Peers::block_received", "Peers::headers_received", "StateSync::check_run", "SyncRunner::sync_loop"],
       (fullNodeTable.lookup n).map (fun p => p.any (fun ev => match ev with | .acq (.chain .ts) .W => true | _ => false)) = some true) := by
